@@ -104,12 +104,12 @@ def docstring_block_moves(ind: str, content: str, extra: str) -> bool:
     return a[0] == b[0] and a[1]["text"] == b[1]["text"]
 
 
-def twin_terminator_matters(rest: str) -> bool:
+def twin_indent_irrelevant(rest: str) -> bool:
     """
-    pre: len(rest) <= 2
+    pre: len(rest) <= 2 and _no_cr_lf(rest)
     post: _
     """
     st = State(DIALECT, None, 0)
-    a = run_match("Other", rest + "\n", st)
-    b = run_match("Other", rest, st)
+    a = run_match("StepLine", "Given " + rest + "\n", st)
+    b = run_match("StepLine", " Given " + rest + "\n", st)
     return a == b
